@@ -118,6 +118,8 @@ def build_rule(spec: RuleSpec, single_as_list: bool = False):
         r = r.are_sub_modules_of(arg(spec.subjects))
     elif spec.s_kind == "regex":
         r = r.have_name_matching(spec.subjects[0])
+    elif spec.s_kind == "partial":
+        r = r.have_name_containing(arg(spec.subjects))
     else:
         raise ValueError(spec.s_kind)
     r = getattr(r, spec.verb)()
@@ -133,6 +135,8 @@ def build_rule(spec: RuleSpec, single_as_list: bool = False):
         r = r.are_sub_modules_of(arg(spec.objects))
     elif spec.o_kind == "regex":
         r = r.have_name_matching(spec.objects[0])
+    elif spec.o_kind == "partial":
+        r = r.have_name_containing(arg(spec.objects))
     else:
         raise ValueError(spec.o_kind)
     return r
